@@ -6,7 +6,7 @@
    trace correspondence of tools/props/_mps_trace.py.  Only final statements here. *)
 From Coq Require Import ZArith List Bool PrimFloat.
 From EV Require Import Base.Arith Gen.Brent Model.MpsMachine Proofs.MpsStep Proofs.MpsPhase Proofs.MpsSweep
-  Proofs.MpsTdvpComplete Proofs.DmrgStep Proofs.DmrgPhase Proofs.DmrgSweep Proofs.DmrgContract Proofs.MpsTdvpTrace Proofs.DmrgStepContract Proofs.MpsTdvpRun Proofs.DmrgRun.
+  Proofs.MpsTdvpComplete Proofs.DmrgStep Proofs.DmrgPhase Proofs.DmrgSweep Proofs.DmrgContract Proofs.MpsTdvpTrace Proofs.DmrgStepContract Proofs.MpsTdvpRun Proofs.DmrgRun Proofs.DmrgN2.
 Import ListNotations.
 Open Scope Z_scope.
 
@@ -133,3 +133,47 @@ Proof.
   cbn [plan_ok fst snd length]. unfold block_ok.
   repeat split; try (repeat constructor; fail); try (vm_compute; reflexivity); vm_compute; discriminate.
 Qed.
+
+(* Two sites (the smallest register the property quantifies over): a sweep is two minimisations of the single
+   pair; the same convergence contract and whole-run statement hold. *)
+Theorem C09_two_sites_step_contract :
+  forall (A : Type) (ar : Arith A) (bl : list (block2 A)) (s : mstate A) (bf : block2 A) (rest : list A)
+         (same : bool) (srest : list bool) (next : option A),
+  dmrg_like2 A s -> dstart2 A s ->
+  o_energy s = flat_map (block2_flat A) bl ++ block2_flat A bf ++ rest ->
+  unconverged2 A ar (m_prevE s) (m_etol s) bl ->
+  converges A ar (last_prev2 A (m_prevE s) bl) (snd bf) (m_etol s) = true ->
+  m_sweeps s + Z.of_nat (length bl) + 1 <= m_maxsw s ->
+  o_same s = same :: srest ->
+  (m_tidx s + 1 < m_steps s -> exists t, next = Some t /\ nthZ (m_times s) (m_tidx s + 2) = Some t) ->
+  (m_steps s <= m_tidx s + 1 -> next = None) ->
+  exists s', iter_progress ar ((length bl + 1) * 2) s = Ok s' /\
+    m_tidx s' = m_tidx s + 1 /\ m_cur s' = m_tgt s /\
+    m_tgt s' = match next with Some t => t | None => m_tgt s end /\
+    (match next with Some _ => dstart2 A s' | None => True end) /\
+    m_sweeps s' = m_sweeps s + Z.of_nat (length bl) + 1 /\ o_energy s' = rest /\ o_same s' = srest /\
+    m_prevE s' = last_prev2 A (m_prevE s) bl /\
+    (m_kind s' = DMRG /\ m_N s' = 2 /\ m_steps s' = m_steps s /\ m_times s' = m_times s /\
+     m_etol s' = m_etol s /\ m_maxsw s' = m_maxsw s) /\
+    exists new, m_ev s' = new ++ m_ev s /\ flat_map (@fill_of A) new = [(m_tidx s, m_tgt s)].
+Proof. exact dmrg2_step_contract. Qed.
+
+Theorem C09_two_sites_out_of_budget_raises :
+  forall (A : Type) (ar : Arith A) (s : mstate A) (e1 e2 : A) (rest : list A),
+  dmrg_like2 A s -> dstart2 A s -> o_energy s = e1 :: e2 :: rest ->
+  converges A ar (m_prevE s) e2 (m_etol s) = false -> m_maxsw s < m_sweeps s + 2 ->
+  iter_progress ar 2 s = Err E_DMRG_NOCONV.
+Proof. exact dmrg2_sweep_gives_up. Qed.
+
+Theorem C09_two_sites_whole_run :
+  forall (A : Type) (ar : Arith A) (t0 t1 : A) (rest : list A) (plan : list (dstep2 A)) (erest : list A)
+         (same : list bool) onorm ounif etol maxsw,
+  length plan = S (length rest) -> (length plan <= length same)%nat ->
+  plan2_ok A ar None etol 0 maxsw plan ->
+  exists s0 sf,
+    mk_initial ar DMRG 2 (1 + Z.of_nat (length rest)) (t0 :: t1 :: rest) etol maxsw
+               onorm ounif (flat_map (dstep2_flat A) plan ++ erest) same = Ok s0 /\
+    iter_progress ar (plan2_calls A plan) s0 = Ok sf /\ is_finished sf = true /\ o_energy sf = erest /\
+    exists new, m_ev sf = new ++ rev (init_events A ar t1) /\
+      flat_map (@fill_of A) new = rev (expected_fills A 0 (t1 :: rest)).
+Proof. exact dmrg2_whole_run. Qed.
